@@ -3,6 +3,8 @@
 
   coverage.py build                  gcov build of libcelma + harness/argh_interp.cpp below /tmp/celma-cov
   coverage.py run C01 C02 ...        runs the quick generators of these checks against the gcov interpreter (VERIF_INTERP_EXE)
+  coverage.py spec C12 [cases]       gcov build of the C++ harness(es) of a SPEC-driven check, runs every mode on the first
+                                     `cases` indices (default 2000; exhaustive modes: a stride over the space is not attempted)
   coverage.py report [file-substr]   per file: lines executed / executable, and the uncovered line ranges
 
 Used to find what a generator never drives (DESIGN.md section 8)."""
@@ -46,6 +48,48 @@ def run(props):
         print(p, "rc=%d" % r.returncode, [l for l in r.stdout.splitlines() if " seed=" in l][-1:])
 
 
+def spec(prop, cases):
+    sys.path.insert(0, os.path.join(VERIF, "lib", "props"))
+    import runner
+    mod = __import__(prop.lower())
+    sp = mod.SPEC
+    os.makedirs(COV + "/obj", exist_ok=True)
+    inc = vc.include_flags()
+    libobjs = []
+    jobs = []
+    for i, src in enumerate(sum((sorted(glob.glob(os.path.join(vc.REPO, "src/library", g))) for g in vc.LIB_GLOBS), [])):
+        o = os.path.join(COV, "obj", "%03d_%s.o" % (i, os.path.basename(src)[:-4]))
+        libobjs.append(o)
+        if not os.path.exists(o):
+            jobs.append((["g++"] + FLAGS + inc + ["-c", src, "-o", o], src))
+    built = {}
+    for m in sp["modes"]:
+        h = sp["harnesses"][m.get("harness", sp.get("default_harness"))]
+        if h["name"] in built:
+            continue
+        objs = []
+        for srcf in h["sources"]:
+            o = os.path.join(COV, "obj", "h_%s_%s.o" % (h["name"], os.path.basename(srcf).rsplit(".", 1)[0]))
+            objs.append(o)
+            jobs.append((["g++"] + FLAGS + [f for f in h.get("cflags", ()) if not f.startswith("-fsanitize")] + inc + ["-pthread", "-c", os.path.join(VERIF, "harness", srcf), "-o", o], srcf))
+        built[h["name"]] = (objs, h)
+    vc._compile_many(jobs, "coverage build")
+    for name, (objs, h) in built.items():
+        exe = os.path.join(COV, "h_" + name)
+        subprocess.run(["g++", "--coverage", "-pthread"] + objs + (libobjs if h.get("with_lib", True) else []) + [f for f in h.get("ldflags", ()) if not f.startswith("-fsanitize")] + vc.LINK_LIBS + ["-o", exe], check=True)
+    for m in sp["modes"]:
+        h = sp["harnesses"][m.get("harness", sp.get("default_harness"))]
+        exe = os.path.join(COV, "h_" + h["name"])
+        total = int(runner.tier_value(m["cases"], "quick"))
+        n = min(cases, total)
+        argv = [exe] + runner.mode_args(m, "quick", 1) + ["--start", "0", "--count", str(n)]
+        env = dict(os.environ)
+        env.update(m.get("env") or {})
+        r = subprocess.run(argv, stdout=subprocess.PIPE, stderr=subprocess.STDOUT, text=True, errors="replace", env=env, timeout=3600)
+        tail = [l for l in r.stdout.splitlines() if l.startswith("DONE") or l.startswith("VIOL")][:3]
+        print(prop, m["name"], "rc=%d" % r.returncode, "cases %d of %d" % (n, total), tail)
+
+
 def report(sub):
     os.chdir(COV + "/obj")
     gcdas = glob.glob("*.gcda")
@@ -73,7 +117,7 @@ def report(sub):
             continue
         d = lines[src]
         tot, hit = len(d), sum(d.values())
-        if not sub and ("prog_args" not in src and "tokenizer" not in src and "text_block" not in src):
+        if not sub and os.environ.get("COV_ALL") is None and ("prog_args" not in src and "tokenizer" not in src and "text_block" not in src):
             continue
         miss = sorted(n for n, h in d.items() if not h)
         rng, start, prev = [], None, None
@@ -100,5 +144,7 @@ if __name__ == "__main__":
         build()
     elif cmd == "run":
         run(sys.argv[2:])
+    elif cmd == "spec":
+        spec(sys.argv[2], int(sys.argv[3]) if len(sys.argv) > 3 else 2000)
     else:
         report(sys.argv[2] if len(sys.argv) > 2 else None)
